@@ -139,7 +139,11 @@ func (w *world) stepCall(i int, m string, a J) (J, J, bool) {
 		obs["err"] = 0
 	}
 	if !hung {
-		guarded(obs, func() { r.post(obs) })
+		if w.svc && w.spostFn != nil {
+			guarded(obs, func() { w.spostFn(i, obs) })
+		} else {
+			guarded(obs, func() { r.post(obs) })
+		}
 	}
 	return cmd, obs, hung
 }
